@@ -211,4 +211,27 @@ pub fn run(ctx: &mut Ctx) {
             report(ctx, "zinc-roundtrip", &m, 0, f);
         }
     }
+    // deep chains: every depth up to the decoder's documented limit (127 nested containers; for Hayson a grid costs
+    // three JSON levels of serde_json's 128, so grid chains stop at 42)
+    if ctx.shard == 0 {
+        let families: [(&str, &[u8]); 5] = [("list", &[0]), ("dict", &[1]), ("grid", &[2]), ("mixed", &[0, 1, 2]), ("meta", &[2, 3, 4, 1])];
+        let mut idx = 0u64;
+        for (fam, kinds) in families {
+            for d in [1usize, 2, 3, 5, 8, 13, 21, 34, 55, 64, 89, 100, 120, 126, 127] {
+                let i = idx;
+                idx += 1;
+
+                if !ctx.begin("deep-chain", i) {
+                    continue;
+                }
+                let mut rng = ctx.case_rng("deep-chain", i);
+                let m = crate::gen::deep_chain(&mut rng, d, kinds);
+                ctx.eval(&format!("deep-chain:{fam}"), m.fp(), true);
+                ctx.note_max("max_nesting_depth_round_tripped", d as f64);
+                if let Err(f) = zinc_roundtrip(&m, 0) {
+                    report(ctx, "zinc-roundtrip", &m, 0, f);
+                }
+            }
+        }
+    }
 }
